@@ -384,13 +384,15 @@ def fs_oracle(o: dict) -> T.Optional[T.Tuple[str, str]]:
     if o['op'] == 'r' and o['before'].get(p) != c and p not in o['touched']:
         return ('replace_if_different:stale', 'replace_if_different did not install different content')
     if o['op'] == 't':
-        unchanged = o['before'].get(p) == c
-        if unchanged and p in o['touched']:
-            return ('do_conf_file:touched-unchanged', 'do_conf_file rewrote an output whose content is unchanged '
-                    f'(template mode {oct(o["tmode"])}, output mode {oct(o["mode_before"].get(p, 0))})')
-        if unchanged and o['mode_after'].get(p) != o['mode_before'].get(p):
+        same_content = o['before'].get(p) == c
+        # "nothing changed" means the template's permission bits are also the ones the output already carries
+        same_inputs = same_content and o['mode_before'].get(p) == o['tmode']
+        if same_inputs and p in o['touched']:
+            return ('do_conf_file:touched-unchanged', 'do_conf_file rewrote an output whose content and mode are unchanged '
+                    f'(template mode {oct(o["tmode"])})')
+        if same_inputs and o['mode_after'].get(p) != o['mode_before'].get(p):
             return ('do_conf_file:mode-changed', 'do_conf_file changed the mode of an unchanged output')
-        if not unchanged and (p not in o['touched'] or o['mode_after'].get(p) != o['tmode']):
+        if not same_content and (p not in o['touched'] or o['mode_after'].get(p) != o['tmode']):
             return ('do_conf_file:stale', 'do_conf_file did not install new content with the template mode')
     for q in o['mode_before']:
         if q != p and o['mode_after'].get(q) != o['mode_before'][q]:
